@@ -20,7 +20,12 @@ REACH = ["merged_calls", "parent_fresh", "parent_from_cache", "parent_from_disk"
 
 LEVELS = 5
 KEYS = ["a", "b", "c", "d", "e", "f"]
-VKINDS = ["none", "int", "str", "float", "list", "dict", "arr-int64", "arr-float64", "frame", "series", "none", "bytes", "date", "nested-partition", "true"]
+VKINDS = ["none", "int", "str", "float", "list", "dict", "arr-int64", "arr-float64", "frame", "series", "none", "bytes", "date", "nested-partition", "true",
+          "bare-i1", "bare-f1", "bare-true", "bare-f0", "bare-nf0", "bare-i0", "bare-dn", "bare-ts", "bare-s"]
+BARE = {"bare-i1": lambda: 1, "bare-f1": lambda: 1.0, "bare-true": lambda: True, "bare-f0": lambda: 0.0, "bare-nf0": lambda: -0.0,
+        "bare-i0": lambda: 0, "bare-s": lambda: "a",
+        "bare-dn": lambda: __import__("datetime").datetime(2020, 1, 2, 3, 4, 5),
+        "bare-ts": lambda: __import__("pandas").Timestamp("2020-01-02 03:04:05")}
 
 PROGRAM = "import twosigma.memento as m\n" + "".join('''
 @m.memento_function
@@ -67,6 +72,8 @@ def mkval(spec, x):
         return None          # a bare None: stored without any content object
     if kind == "nested-partition":
         return InMemoryPartition({"n": [u, x], "m": np.arange(3, dtype=np.int64) + u})
+    if kind in BARE:
+        return BARE[kind]()  # bare scalars that are == to one another but not the same value (1, 1.0, True; 0.0, -0.0; ...)
     v = values.build(kind)
     return [v, u, x] if kind not in ("frame", "series", "arr-int64", "arr-float64") else v
 
